@@ -422,7 +422,21 @@ def suite_pair(p, rng, cap=450):
         out.append(case("q%d" % i, p, [['new']] + M[a] + M[b], delay=['none', '0', '1', '250'][i % 4]))
     return out
 
+def suite_sw(p, rng, cap=320):
+    """new; A; sleep; wake_up; B for every ordered pair of macro steps (C08: any sequence of calls after sleep and
+    wake-up behaves as after construction)"""
+    import gen_specs
+    M = [m for m in gen_specs.macros(p) if not any(o[0] in ('sleep', 'wake_up') for o in m)]
+    pairs = [(a, b) for a in range(len(M)) for b in range(len(M))]
+    if len(pairs) > cap:
+        step = len(pairs) / float(cap)
+        off = rng.below(max(1, int(step)))
+        pairs = [pairs[min(len(pairs) - 1, int(i * step) + off)] for i in range(cap)]
+    return [case("s%d" % i, p, [['new']] + M[a] + [['sleep'], ['wake_up']] + M[b]) for i, (a, b) in enumerate(pairs)]
+
 def suite(p, name, rng, plan=None):
+    if name == 'sw':
+        return suite_sw(p, rng)
     if name == 'win':
         return suite_win(p, rng)
     if name == 'pair':
